@@ -62,20 +62,38 @@ fn main() {
     evlog::install_panic_hook();
     for k in 0..count {
         let seed = seed0 + k;
-        match workload.as_str() {
-            "cluster" => scen_cluster::run(&class, seed, &params).print(),
-            "byz" => scen_byz::run(&class, seed, &params).print(),
-            "e2e" => scen_e2e::run(&class, seed, &params).print(),
-            "hostile" => scen_hostile::run(&class, seed, &params).print(),
-            "puppet" => scen_puppet::run(&class, seed, &params).print(),
-            "c11" | "c12" => comp_mempool::run(&workload, &class, seed, &params).print(),
-            "c14" => comp_sender::run(&class, seed, &params).print(),
-            "c16" => comp_store::run(&class, seed, &params).print(),
-            "c17" | "c18" | "c20" | "c09" | "c19" | "c04" => comp_pure::run(&workload, &class, seed, &params).print(),
+        // A panic of the harness's own main thread (an oracle tripping over behaviour it did not
+        // expect) must not take the remaining scenarios of this worker with it, and must never be
+        // mistaken for a verdict: it is reported as an inconclusive run.
+        let (w, c, p) = (workload.clone(), class.clone(), params.clone());
+        let outcome = std::panic::catch_unwind(move || match w.as_str() {
+            "cluster" => scen_cluster::run(&c, seed, &p).print(),
+            "byz" => scen_byz::run(&c, seed, &p).print(),
+            "e2e" => scen_e2e::run(&c, seed, &p).print(),
+            "hostile" => scen_hostile::run(&c, seed, &p).print(),
+            "puppet" => scen_puppet::run(&c, seed, &p).print(),
+            "c11" | "c12" => comp_mempool::run(&w, &c, seed, &p).print(),
+            "c14" => comp_sender::run(&c, seed, &p).print(),
+            "c16" => comp_store::run(&c, seed, &p).print(),
+            "c17" | "c18" | "c20" | "c09" | "c19" | "c04" => comp_pure::run(&w, &c, seed, &p).print(),
             other => {
                 eprintln!("unknown workload {}", other);
                 std::process::exit(2);
             }
+        });
+        if outcome.is_err() {
+            let panics = evlog::take_panics();
+            let last = panics.last().cloned().unwrap_or_default();
+            println!(
+                "RESULT {}",
+                serde_json::json!({
+                    "workload": workload, "class": class, "seed": seed, "params": {}, "violations": [], "counters": {}, "situations": [],
+                    "inconclusive": [format!("ALL: the harness panicked at {}: {}", last.0, last.1)],
+                    "fingerprint": "harness-panic", "wall_ms": 0, "virtual_ms": 0, "sample": null, "cases": 0, "classes": [],
+                })
+            );
+            // Global state (simnet world, sinks, log) may be inconsistent: leave the remaining seeds to a fresh process.
+            std::process::exit(3);
         }
     }
 }
